@@ -24,4 +24,5 @@ func (ctrler *RigoApp) VerifCloseAll() {
 	_ = ctrler.Stop()
 	ctrler.stakeCtrler.VerifCloseLeaked()
 	ctrler.govCtrler.VerifCloseLeaked()
+	ctrler.vmCtrler.VerifCloseLeaked()
 }
